@@ -52,7 +52,7 @@ FRAMES = [
                  'circus.watcher:Watcher.send_signal_process',
                  'circus.commands.sendsignal:Signal.execute']},
 ]
-ASSUMPTIONS = ['A-PY', 'A-STR', 'T-PSUTIL', 'A-HOOKPURE', 'A-ATOMIC-COMP (get_active_pids / get_active_processes)', 'A-WORKERPID', 'A-ASCII: \\w and \\d are the ASCII classes in the regex model',
+ASSUMPTIONS = ['A-POLLREAP: Popen.poll() also reaps the zombie; the model keeps the pid in K_child until a waitpid (reap_process is verified for both waitpid answers)', 'A-PY', 'A-STR', 'T-PSUTIL', 'A-HOOKPURE', 'A-ATOMIC-COMP (get_active_pids / get_active_processes)', 'A-WORKERPID', 'A-ASCII: \\w and \\d are the ASCII classes in the regex model',
                'T-SIGTABLE: signal table read from the interpreter running the verifier']
 TRUSTED = ["T-STDLIB re.match / re.fullmatch for the literal pattern (\\w+)(\\+(\\d+))? (pyvc/regex.py)"]
 NOT_DECIDED = ['kernel delivery of the signal',
